@@ -227,6 +227,62 @@ def render(repo: Path) -> str:
     expand = [n.args[0].value for n in ast.walk(find_def(xdg, 'get_config_user'))
               if isinstance(n, ast.Call) and isinstance(n.func, ast.Attribute) and n.func.attr == 'expanduser'
               and n.args and isinstance(n.args[0], ast.Constant)]
+    win = find_class(plat_tree, 'Windows')
+    win_env = getenvs(find_def(win, '__init__'))
+    # get_platform_dir_finder: the chain of tests, in source order
+    finder = next((n for n in plat_tree.body if isinstance(n, ast.FunctionDef) and n.name == 'get_platform_dir_finder'), None)
+    if finder is None:
+        raise Shape('get_platform_dir_finder not found')
+    chain = next((n for n in finder.body if isinstance(n, ast.If)), None)
+    if chain is None:
+        raise Shape('get_platform_dir_finder has no if chain')
+    branches, android_tests = [], []
+    node = chain
+    while True:
+        target = [a.value.id for a in ast.walk(ast.Module(body=node.body, type_ignores=[]))
+                  if isinstance(a, (ast.Assign,)) and isinstance(a.value, ast.Name)]
+        if len(target) != 1:
+            raise Shape('get_platform_dir_finder: a branch does not assign one class')
+        test = node.test
+        envs_here = []
+        for c in ast.walk(test):
+            if isinstance(c, ast.Compare) and len(c.ops) == 1 and isinstance(c.ops[0], ast.Eq):
+                g = getenv_call(c.left)
+                if g and isinstance(c.comparators[0], ast.Constant):
+                    envs_here.append((g[0], c.comparators[0].value))
+        if envs_here:
+            if not (isinstance(test, ast.BoolOp) and isinstance(test.op, ast.And)):
+                raise Shape('get_platform_dir_finder: environment tests are not joined by `and`')
+            android_tests = envs_here
+            branches.append('env:' + target[0])
+        elif (isinstance(test, ast.Compare) and isinstance(test.left, ast.Name) and len(test.ops) == 1
+              and isinstance(test.ops[0], ast.Eq) and isinstance(test.comparators[0], ast.Constant)):
+            branches.append(f'{test.comparators[0].value}:{target[0]}')
+        else:
+            raise Shape(f'get_platform_dir_finder: test of unknown shape: {ast.unparse(test)}')
+        if len(node.orelse) == 1 and isinstance(node.orelse[0], ast.If):
+            node = node.orelse[0]
+            continue
+        target = [a.value.id for a in node.orelse if isinstance(a, ast.Assign) and isinstance(a.value, ast.Name)]
+        if len(target) != 1:
+            raise Shape('get_platform_dir_finder: the else branch does not assign one class')
+        branches.append('else:' + target[0])
+        break
+    android = find_class(plat_tree, 'Android')
+    and_raise = [ast.unparse(n.exc.func) + ':' + n.exc.args[0].value for n in ast.walk(find_def(android, '_get_android_dir'))
+                 if isinstance(n, ast.Raise) and isinstance(n.exc, ast.Call) and n.exc.args
+                 and isinstance(n.exc.args[0], ast.Constant)]
+    and_join = [ast.unparse(n) for n in ast.walk(find_def(android, '__init__'))
+                if isinstance(n, ast.Call) and isinstance(n.func, ast.Attribute) and n.func.attr == 'joinpath'
+                and any(isinstance(a, ast.Constant) and a.value == 'shared_prefs' for a in n.args)]
+    # which exceptions the two loaders turn into "absent" / ConfigError: the except clauses
+    def excepts(fn):
+        return [ast.unparse(h.type) if h.type is not None else 'BaseException'
+                for n in ast.walk(fn) if isinstance(n, ast.Try) for h in n.handlers]
+    loader_excepts = [('load_yaml', excepts(find_def(cls, 'load_yaml'))),
+                      ('load_pyproject_toml', excepts(find_def(cls, 'load_pyproject_toml'))),
+                      ('handle_path', excepts(find_def(cls, 'handle_path'))),
+                      ('update', excepts(find_def(cls, 'update'))), ('init', excepts(init))]
     lines = [
         '/- GENERATED by harness/extract_c20.py from pypyr/config.py and pypyr/platform.py — do not edit. -/',
         'import PypyrModel.Config',
@@ -266,6 +322,21 @@ def render(repo: Path) -> str:
         'def xdgUserGetenv : List (String × Option String) := [' + ', '.join(f'({lean_str(n)}, {opt_str(d)})' for n, d in xdg_user_env) + ']',
         'def xdgCommonGetenv : List (String × Option String) := [' + ', '.join(f'({lean_str(n)}, {opt_str(d)})' for n, d in xdg_common_env) + ']',
         'def xdgUserExpand : List String := [' + ', '.join(lean_str(a) for a in expand) + ']',
+        '',
+        '/-- `Windows.__init__`: the `os.getenv(name, default)` behind the common default. -/',
+        'def winCommonGetenv : List (String × Option String) := [' + ', '.join(f'({lean_str(n)}, {opt_str(d)})' for n, d in win_env) + ']',
+        '',
+        '/-- `get_platform_dir_finder`: the tests in source order (`env:` = the `$ANDROID_*` test, `<sys.platform>:Class`). -/',
+        'def finderBranches : List String := [' + ', '.join(lean_str(b) for b in branches) + ']',
+        '/-- the `os.getenv(NAME) == literal` conjuncts of the Android test. -/',
+        'def androidTests : List (String × String) := [' + ', '.join(f'({lean_str(n)}, {lean_str(v)})' for n, v in android_tests) + ']',
+        '/-- what `Android._get_android_dir` raises when it finds nothing. -/',
+        'def androidRaises : List String := [' + ', '.join(lean_str(a) for a in and_raise) + ']',
+        '/-- the `joinpath` behind the Android config file. -/',
+        'def androidJoin : List String := [' + ', '.join(lean_str(a) for a in and_join) + ']',
+        '',
+        '/-- the `except` clauses of the loaders, of `handle_path`, `update` and `init`: what is caught at all. -/',
+        'def loaderExcepts : List (String × List String) :=\n  [' + ', '.join(f'({lean_str(n)}, [' + ', '.join(lean_str(x) for x in xs) + '])' for n, xs in loader_excepts) + ']',
         '',
         'end Pypyr.Generated.ConfigProps',
         '']
